@@ -1,7 +1,10 @@
 //go:build verif
 
-// Contracts for the generated bindings of this package (property C05), derived mechanically by
-// /verif/tools/gencontracts.py from the generated source; checked by /verif/govc. Comments only.
+// Contracts for the generated bindings of this package, derived mechanically by /verif/tools/gencontracts.py;
+// checked by /verif/govc. Comments only. C05 (decoder totality): from the shape of the generated readers.
+// C03 (schema encoding): from the IDL file of the package - for a struct whose members are all scalars or
+// strings, WriteTo appends exactly the members in ascending tag order, each under its declared tag and wire
+// type, required ones always, optional ones unless equal to their declared default.
 
 package authf
 
@@ -30,6 +33,20 @@ package authf
 //@   ensures [C05] validR(readBuf)
 //@   safety [C05]
 //
+//@ func (*BasicAuthInfo).WriteTo
+//@   requires st != nil && validB(buf) && len(st.SObjName) < 4294967296 && len(st.SAccessKey) < 4294967296 && len(st.SSecretKey) < 4294967296 && len(st.SHashSecretKey2) < 4294967296
+//@   let e0 = buf.buf.bytes
+//@   let e1 = (st.SObjName != "" ? e0 ++ encString(1, st.SObjName) : e0)
+//@   let e2 = (st.SAccessKey != "" ? e1 ++ encString(2, st.SAccessKey) : e1)
+//@   let e3 = (st.SSecretKey != "" ? e2 ++ encString(3, st.SSecretKey) : e2)
+//@   let e4 = (st.SHashSecretKey2 != "" ? e3 ++ encString(4, st.SHashSecretKey2) : e3)
+//@   let pre = e4
+//@   opaque head encInt8 encInt16 encInt32 encInt64 encString encBool
+//@   perreturn
+//@   modifies buf.buf.bytes
+//@   ensures [C03] err == nil && buf.buf.bytes == pre
+//@   safety [C03]
+//
 //@ func (*BasicAuthPackage).ResetDefault
 //@   requires st != nil
 //@   modifies *st
@@ -55,6 +72,21 @@ package authf
 //@   ensures [C05] validR(readBuf)
 //@   safety [C05]
 //
+//@ func (*BasicAuthPackage).WriteTo
+//@   requires st != nil && validB(buf) && len(st.SObjName) < 4294967296 && len(st.SAccessKey) < 4294967296 && len(st.SHashMethod) < 4294967296 && len(st.SSignature) < 4294967296
+//@   let e0 = buf.buf.bytes
+//@   let e1 = e0 ++ encString(1, st.SObjName)
+//@   let e2 = e1 ++ encString(2, st.SAccessKey)
+//@   let e3 = e2 ++ encInt64(3, st.ITime)
+//@   let e4 = (st.SHashMethod != "sha1" ? e3 ++ encString(4, st.SHashMethod) : e3)
+//@   let e5 = (st.SSignature != "" ? e4 ++ encString(5, st.SSignature) : e4)
+//@   let pre = e5
+//@   opaque head encInt8 encInt16 encInt32 encInt64 encString encBool
+//@   perreturn
+//@   modifies buf.buf.bytes
+//@   ensures [C03] err == nil && buf.buf.bytes == pre
+//@   safety [C03]
+//
 //@ func (*TokenKey).ResetDefault
 //@   requires st != nil
 //@   modifies *st
@@ -79,6 +111,19 @@ package authf
 //@   ensures [C05] readBuf.buf.i >= p0
 //@   ensures [C05] validR(readBuf)
 //@   safety [C05]
+//
+//@ func (*TokenKey).WriteTo
+//@   requires st != nil && validB(buf) && len(st.SApplication) < 4294967296 && len(st.SServer) < 4294967296 && len(st.SObjName) < 4294967296
+//@   let e0 = buf.buf.bytes
+//@   let e1 = e0 ++ encString(1, st.SApplication)
+//@   let e2 = e1 ++ encString(2, st.SServer)
+//@   let e3 = e2 ++ encString(3, st.SObjName)
+//@   let pre = e3
+//@   opaque head encInt8 encInt16 encInt32 encInt64 encString encBool
+//@   perreturn
+//@   modifies buf.buf.bytes
+//@   ensures [C03] err == nil && buf.buf.bytes == pre
+//@   safety [C03]
 //
 //@ func (*AuthRequest).ResetDefault
 //@   requires st != nil
